@@ -166,11 +166,30 @@ def run(tier, seed, replay=None):
         texts = list(SHAPES) + list(sqlcorpus.harvest()['mindsdb'])
         import c06
         texts += [c06.gen_statement(rng) for _ in range(60 if tier == 'quick' else 1500)]
+        # every type name the renderer itself knows, as a cast and as a column type (compilation of a type can fail where its
+        # translation does not), and statements derived from the grammar (every statement kind)
+        fixed = list(SHAPES)
+        try:
+            from mindsdb_sql.render.sqlalchemy_render import SqlalchemyRender as _SR
+            tnames = sorted(_SR('mysql').types_map)
+        except Exception:
+            tnames = []
+        if tier == 'quick' and len(tnames) > 60:
+            rngt = random.Random(seed)
+            tnames = sorted(set(rngt.sample(tnames, 50)) | {'VARBINARY', 'VARCHAR', 'TYPEENGINE', 'TUPLETYPE', 'INT', 'TEXT', 'NUMERIC', 'ARRAY', 'ENUM', 'JSON'} & set(tnames))
+        for tn in tnames:
+            fixed += [f'select cast(a as {tn.lower()}) from t', f'create table t (a {tn.lower()})', f'create table t (a {tn.lower()}(5))']
+        import gramgen
+        try:
+            gen = gramgen.statements(rng, 'mindsdb', 150 if tier == 'quick' else 3000)
+        except Exception:
+            gen = []
+        texts = fixed + texts[len(SHAPES):] + gen
         if tier == 'quick':
             rng2 = random.Random(seed)
-            rest = texts[len(SHAPES):]
+            rest = texts[len(fixed):]
             rng2.shuffle(rest)
-            texts = texts[:len(SHAPES)] + rest[:260]
+            texts = fixed + rest[:300]
     rows = []
     stats = {'trees': 0, 'calls': 0, 'rendered': 0, 'own_string': 0, 'raised_without_fallback': {}, 'unparsable': 0}
     leaks, mutations = {}, {}
